@@ -27,7 +27,7 @@ BugMutations ==
     op_unknown_type |-> "op", op_zero_type |-> "op", op_string_type |-> "op", op_null |-> "op", op_number |-> "op",
     op_missing_type |-> "op", op_bad_title |-> "op-valid", op_control_chars |-> "op-valid", op_short_nonce |-> "op-valid",
     op_no_nonce |-> "op-valid", edit_target_short |-> "op-valid", edit_target_empty |-> "op-valid", edit_target_long |-> "op-valid",
-    edit_target_badchars |-> "op-valid", meta_target_short |-> "op-valid", op_extra_field |-> "tolerated", op_dup |-> "op-valid", second_create |-> "op-valid",
+    edit_target_badchars |-> "op-valid", meta_target_short |-> "op-valid", op_extra_field |-> "tolerated", op_dup |-> "op-valid", second_create |-> "op-valid", create_not_first |-> "op-valid", create_missing |-> "op-valid",
     odd_label_dup_removed |-> "tolerated", odd_label_dup |-> "tolerated", odd_label_remove_absent |-> "tolerated", odd_label_add_remove |-> "tolerated",
     odd_many_labels |-> "tolerated", odd_status_same |-> "tolerated", odd_title_same |-> "tolerated", odd_edit_non_comment |-> "tolerated",
     odd_edit_unknown |-> "tolerated", odd_meta_unknown |-> "tolerated", odd_comment_huge |-> "tolerated", odd_time_before_create |-> "tolerated",
@@ -52,6 +52,7 @@ Locals == {"absent", "equal", "ahead", "behind", "diverged"}
 BugApplicable(m, p) ==
   CASE m \in {"createclock_missing", "createclock_garbage"} -> p = "root"
     [] m \in {"second_create", "merge_with_ops", "clock_back", "clock_jump"} -> p # "root"
+    [] m \in {"create_not_first", "create_missing"} -> p = "root"        \* the one create operation comes second (the ref is named after the first); there is none
     [] m \in {"second_root"} -> p = "middle"
     [] m \in {"ref_other_id", "ref_bad_name", "none", "empty_history"} -> p = "head"
     [] OTHER -> TRUE
